@@ -142,20 +142,28 @@ var c09Families = []magFamily{
 
 // size classes of the subject data: the implementation may pick a different algorithm for long
 // inputs (direct indexing for short or single-byte strings, a walk for long multi-byte ones), and the
-// magnitude must not drive any of them.  Class 0: 10 elements / characters; class 1: 300; class 2: 5000.
+// magnitude must not drive any of them.  Class 0: 10 elements / characters; class 1: 300; class 2: 5000;
+// classes 3 and 4: 10 and 300 with ill-formed UTF-8 in the strings.
 var c09Classes = []struct {
 	rep  int
 	base string
-}{{1, "20"}, {30, "700"}, {500, "12000"}}
+}{{1, "20"}, {30, "700"}, {500, "12000"}, {-1, "20"}, {-30, "700"}}
 
 func c09Doc(mag string, cls int) any {
 	rep := c09Classes[cls].rep
+	sUnit, mUnit := "abcabcabca", "aé𝌆béé𝌆ab"
+	if rep < 0 {
+		// ill-formed UTF-8 (a Go string can hold it, a JSON document cannot): stray continuation,
+		// lead and impossible bytes between the characters
+		rep = -rep
+		sUnit, mUnit = "abc\xffbc\x80bca"[:10], "aé\xff𝌆b\xc3é𝌆a"
+	}
 	a := make([]any, 10*rep)
 	for i := range a {
 		a[i] = json.Number(fmt.Sprint(i))
 	}
 	aa := []any{a, a, a}
-	return map[string]any{"a": a, "aa": aa, "s": strings.Repeat("abcabcabca", rep), "m": strings.Repeat("aé𝌆béé𝌆ab", rep), "c": strings.Repeat("a,b,c,d,e", rep), "n": json.Number(mag), "big": json.Number("1e" + mag), "z": json.Number("0e" + mag)}
+	return map[string]any{"a": a, "aa": aa, "s": strings.Repeat(sUnit, rep), "m": strings.Repeat(mUnit, rep), "c": strings.Repeat("a,b,c,d,e", rep), "n": json.Number(mag), "big": json.Number("1e" + mag), "z": json.Number("0e" + mag)}
 }
 
 func c09MagN(c *Ctx) int { return len(c09Families) * 2 * len(c09Classes) }
